@@ -7,6 +7,10 @@
 // cell with the destructively processed list). Elements are fixnums or
 // one-level sub-lists; a sub-list object reachable from several lists must
 // stay shared: a write into it is visible through every list that holds it.
+// Lists may be improper (dotted: rplacd, cons, list*, append, nconc with an
+// atom): the model gives every variable the chain of cons cells of its spine,
+// rplacd cuts the chain, and a tail taken before the cut is a list of its
+// own afterwards that nothing done to the dotted list may change.
 package c06
 
 import (
@@ -819,13 +823,27 @@ func indexOf(cells []int, c int) int {
 	return -1
 }
 
-func intersects(a, b []int) bool {
+// wildCell stands for "any cell": the value is the unjudged result of an
+// operation the language does not define (or was processed by one), so
+// which cells it reaches cannot be told from the language rules.
+const wildCell = 0
+
+// overlap: the two sets have a cell in common.
+func overlap(a, b []int) bool {
 	for _, x := range a {
-		if 0 <= indexOf(b, x) {
+		if x != wildCell && 0 <= indexOf(b, x) {
 			return true
 		}
 	}
 	return false
+}
+
+// intersects: the two values may share a cons cell.
+func intersects(a, b []int) bool {
+	if len(a) == 0 || len(b) == 0 {
+		return false
+	}
+	return overlap(a, b) || 0 <= indexOf(a, wildCell) || 0 <= indexOf(b, wildCell)
 }
 
 // unionCells: a followed by the cells of b that are not in a (a new slice).
@@ -891,7 +909,15 @@ func (w *world) span(i int) (lo, used, hi uintptr, ok bool) {
 	}
 	lo = uintptr(unsafe.Pointer(unsafe.SliceData(list)))
 	size := unsafe.Sizeof(slip.Object(nil))
-	return lo, lo + uintptr(len(list))*size, lo + uintptr(cap(list))*size, true
+	n := len(list)
+	if 0 < n {
+		if _, dotted := list[n-1].(slip.Tail); dotted {
+			// the slot that holds the atom of a dotted list is the cdr of the
+			// last cons, not an element
+			n--
+		}
+	}
+	return lo, lo + uintptr(n)*size, lo + uintptr(cap(list))*size, true
 }
 
 // sigName maps an operation variant to the function it exercises.
@@ -937,7 +963,7 @@ func sigName(op string) string {
 
 func (w *world) blame(cd, ci []int) (op string, legit, found bool) {
 	for _, h := range w.hidden {
-		if (intersects(h.c1, cd) && intersects(h.c2, ci)) || (intersects(h.c1, ci) && intersects(h.c2, cd)) {
+		if (overlap(h.c1, cd) && overlap(h.c2, ci)) || (overlap(h.c1, ci) && overlap(h.c2, cd)) {
 			if !h.legit {
 				return h.op, false, true
 			}
@@ -2018,7 +2044,7 @@ func (w *world) stepOp(op Op, phase string) {
 	if kd.dest {
 		x.Cover("destructive-ops")
 	}
-	if errored {
+	if errored || p.undef {
 		return
 	}
 	// name-only bookkeeping: does the new value of the target occupy the
@@ -2058,11 +2084,12 @@ func (w *world) stepCells(op Op, kd *kind, p *planned, before *[nv]vstate, label
 		}
 	}
 	// relink: by the language rules variable i now has the chain nc and the
-	// value pred. When slip shows exactly that the model stays exact, otherwise
-	// (allowed for a list sharing cells with a processed one) the variable may
-	// still reach its old cells as well.
+	// value pred. When slip shows exactly that - and it is a change, so that
+	// the effect was really seen - the model stays exact, otherwise (allowed
+	// for a list sharing cells with a processed one: "the original lists are
+	// not always modified") the variable may still reach its old cells as well.
 	relink := func(i int, nc chain, pred val) {
-		if nc.exact && w.v[i].ok && w.v[i].shown == render(pred) {
+		if nc.exact && w.v[i].ok && w.v[i].shown == render(pred) && before[i].shown != render(pred) {
 			w.v[i].cells, w.v[i].exact = nc.cells, true
 			return
 		}
@@ -2078,10 +2105,16 @@ func (w *world) stepCells(op Op, kd *kind, p *planned, before *[nv]vstate, label
 		if 3 <= kd.nargs {
 			u = unionCells(u, C.cells)
 		}
-		if kd.dest {
+		// what an undefined operation that did not signal an error made of its
+		// arguments and what its result consists of cannot be told
+		wild := unionCells(u, []int{wildCell})
+		switch {
+		case kd.dest && errored:
 			entangle(u, u)
+		case kd.dest:
+			entangle(u, wild)
 		}
-		rc = chain{cells: unionCells(u, w.newCells(1).cells)}
+		rc = chain{cells: wild}
 	case op.Op == "ho" && p.from != nil: // map-into: the cars of the target's cells are replaced
 		rc = chain{cells: before[op.T].cells, exact: before[op.T].exact}
 	case kd.share == shFresh:
@@ -2201,6 +2234,17 @@ func (w *world) stepCells(op Op, kd *kind, p *planned, before *[nv]vstate, label
 	}
 	res := &w.v[op.T]
 	res.cells, res.exact = rc.cells, rc.exact && agreed
+	if !agreed {
+		// the value is not the reference result (reported) or not defined: the
+		// target may hold cells of any of the arguments
+		res.cells = unionCells(res.cells, A.cells)
+		if 2 <= kd.nargs {
+			res.cells = unionCells(res.cells, B.cells)
+		}
+		if 3 <= kd.nargs {
+			res.cells = unionCells(res.cells, C.cells)
+		}
+	}
 	if res.ok && res.el.conses() == 0 {
 		res.cells, res.exact = nil, false // nil or an atom: no cons cell
 	}
@@ -2367,20 +2411,23 @@ func init() {
 		Rule: "history = pool construction (list / quoted literal, elements fixnums or one-level sub-lists; grown by add or push, optionally shortened again; result of remove/delete/remove-if/mapcar/append/revappend/remove-duplicates; " +
 			"or alias / cdr / nthcdr / last / member of an earlier variable) followed by <= 6 operations over 4 named lists; " +
 			"block 0 = higher-order route: every generated (list function, higher-order function) combination (19 functions called through mapcar / map / map-into / mapcan / reduce / apply / funcall: 84 combinations) x 6 sub-list length patterns (lengths 0..3) x 6 follow-ups (none; rows of the result written into; an argument row written into; a second call whose rows are written into; destructive top-level processing) = 3 024 cases; " +
-			"block 1 = every ordered pair of the 55 operations x 6 aliasing patterns x 8 (pool, selector) combinations over 5 pools {exact capacity, grown by add, sub-list elements, built by remove, built by append} (exhaustive, every seed); " +
-			"block 2 = ordered triples: quick the seed-independent third with (p+2q+3s) mod 3 = 0 (pattern and pool rotate), thorough every triple x 2 patterns x 2 pools; " +
-			"then seeded random histories (any variable as target and as any argument). " +
+			"block 1 = improper lists: 13 ways to make a dotted list or a bare atom (rplacd with an atom on the head cons of la, bound to another variable or to la itself; on an inner cons reached by cdr / nthcdr / last; (rplacd (last ld 2) atom) shortening a tail of la; cons / list* / append / nconc with an atom; rplacd with nil in front of the former tail; the cdr of a dotted pair, next to a list of three and next to an empty list) with lb = (nthcdr 3 la) taken BEFORE the cdr is replaced, x every one of the 61 operations x 4 aliasing patterns (dotted list processed in place; first argument, result elsewhere; LAST argument; the former tail processed with the dotted list as second argument) x 3 follow-ups (none; result extended by nconc; car of the result replaced) x 5 pools = 47 580 cases; " +
+			"block 2 = every ordered pair of the 59 operations x 6 aliasing patterns x 8 (pool, selector) combinations over 5 pools {exact capacity, grown by add, sub-list elements, built by remove, built by append} (exhaustive, every seed); " +
+			"block 3 = ordered triples: quick the seed-independent third with (p+2q+3s) mod 3 = 0 (pattern and pool rotate), thorough every triple x 2 patterns x 2 pools; " +
+			"then seeded random histories (any variable as target and as any argument; every fifth starts by making a dotted list out of a pool list). " +
+			"An operation the language does not define for an improper list (sequence functions, mapcar, member, append / revappend / nreconc with a dotted non-last argument, add, push onto an atom ...) is still run: an error is accepted and the result is not judged, but the frame rule applies. " +
 			"distinct = distinct program text; non-trivial = at least one operation ran and at least two variables hold non-empty lists at the end. " +
-			"never generated: subseq of an empty list (type-error) and remove-duplicates of a list holding both nil and the empty tail of a one-element list (they are not equal in slip) - C14/C16's concern; circular structures, sub-lists as variable values, map-into into a list sharing cells with its arguments, mapc (its results are discarded); nothing else is avoided",
+			"never generated: subseq of an empty list (type-error) and remove-duplicates of a list holding both nil and the empty tail of a one-element list (they are not equal in slip) - C14/C16's concern; circular structures, dotted sub-lists, atoms other than fixnums as the cdr, (setf (cdr x)) (not implemented in slip), sub-lists as variable values, map-into into a list sharing cells with its arguments, mapc (its results are discarded); nothing else is avoided",
 		N:     nCases,
 		Gen:   gen,
 		Exec:  exec,
 		Init:  initWorker,
 		Batch: 4000,
 		Assumptions: []string{
-			"the value oracle is computed from the observed contents of the arguments, the frame rule from a sharing model (union-find over allocation classes) that over-approximates cons-cell sharing under ANSI CL rules",
+			"the value oracle is computed from the observed contents of the arguments, the frame rule from a cons-cell reference model (every variable has the ordered chain of the cells of its spine while the language defines it exactly, else a set that over-approximates the cells it may reach; rplacd cuts chains, nconc / add link them, sort / delete / nreverse entangle) that over-approximates cons-cell sharing under ANSI CL rules",
+			"a variable that shares cells with a destructively processed list may keep showing its old contents (slip: 'the original lists are not always modified'); the model then keeps its old cells as well; a variable that is not a list any more (slip keeps the atom of a dotted pair in the slot of the next element, so a (cdr x) taken before (rplacd x atom) reads (. 9 3 4)) is not judged by destructive operations afterwards",
 			"remove/remove-if/remove-duplicates results are treated as fresh (the property's 'independent of its arguments'); CL would also allow sharing",
-			"elements are fixnums or one-level sub-lists of fixnums (or nil); every sub-list object carries an id in the reference model that travels through the reference functions, so rows made by different calls are different objects even when their contents are equal; where the identity of an occurrence is not known, or a cell may be shared by the language rules (a row made by cons shares its second argument), writes into it are not generated; dotted lists are not generated",
+			"elements are fixnums or one-level sub-lists of fixnums (or nil); every sub-list object carries an id in the reference model that travels through the reference functions, so rows made by different calls are different objects even when their contents are equal; where the identity of an occurrence is not known, or a cell may be shared by the language rules (a row made by cons shares its second argument), writes into it are not generated; a dotted list ends in a fixnum",
 			"variables are re-read through Scope.Get and rendered by the harness printer",
 			"route cases: the same program text is re-run as one let/lambda form and a Go builtin (c06-snap) renders the variables after every operation; both runs must agree",
 		},
